@@ -14,6 +14,9 @@ package main
 // (sprinkleSession), some publisher threads keep ONE topics slice and rewrite it in place between calls (sprinkleReuse),
 // some subscribers present a Last-Event-ID (sprinkleIDs); in one scenario of three the topic numbers are spelled as
 // names of another shape - long, differing in one byte, NUL, UTF-8, mixed sizes (sprinkleSpelling, jSpellings in joe_run.go).
+// Also: what the Subscription's Client field holds (sprinkleClients, tplClients: the subscriber's own pointer, values of
+// uncomparable dynamic types, ONE writer object subscribed several times), publications that name a topic more than once
+// (sprinkleDupTopics, tplDupTopics).  A run stops making scenarios once jStuckMax of them stranded calls (emit).
 // All randomness comes from c.R.
 
 import (
@@ -245,6 +248,24 @@ func (g *jgen) countScenario(fam, class string, s *jScenario) {
 		if x.idopt.Present() {
 			seen["resume-id-presented"] = true
 		}
+		if x.via&jViaServer == 0 {
+			switch {
+			case x.client >= jClientShare:
+				kind := "the-same-pointer"
+				if x.client >= jClientShareV {
+					kind = "equal-struct-values"
+				}
+				seen["client:one-writer-object-subscribed-several-times/"+kind] = true
+				if fail {
+					seen["client:shared-writer+one-subscription-fails"] = true
+				}
+			case x.client != 0:
+				seen["client:uncomparable-dynamic-type/"+[]string{"", "func", "struct-with-slice", "struct-with-map"}[x.client]] = true
+				if fail && len(s.subs) > 1 {
+					seen["client:uncomparable-dynamic-type+a-subscriber-fails"] = true
+				}
+			}
+		}
 	}
 	for _, h := range s.shuts {
 		if h.hasCancel {
@@ -292,6 +313,17 @@ func (g *jgen) countScenario(fam, class string, s *jScenario) {
 		for _, m := range t.msgs {
 			if m.flags&jPubServer != 0 {
 				seen["Server.Publish:topics:"+strconv.Itoa(len(m.topics))] = true
+			}
+			if jHasDup(m.topics) {
+				seen["publication-names-a-topic-twice"] = true
+				if s.kind >= 1 && s.kind <= 3 {
+					seen["publication-names-a-topic-twice+real-replayer"] = true
+					for _, x := range s.subs {
+						if et := x.effTopics(s.noOnSession); jIntersects(et, []uint64{0}) && !jIntersects(et, m.effTopics()) {
+							seen["publication-names-a-topic-twice+real-replayer+default-topic-subscriber-not-addressed"] = true
+						}
+					}
+				}
 			}
 			if m.flags&jPubReuse != 0 && (s.kind == 0 || s.kind == 4) {
 				seen["publisher-rewrites-its-one-topics-slice-in-place"] = true
@@ -515,7 +547,125 @@ func (g *jgen) sprinkleSpelling(s *jScenario) {
 	}
 }
 
+// dupTopics: the list with one of its names repeated once or twice - next to itself or further away.  The same SET.
+func (g *jgen) dupTopics(topics []uint64) []uint64 {
+	out := append([]uint64{}, topics...)
+	if len(out) == 0 {
+		return out
+	}
+	for k, n := 0, 1+g.r.Intn(2); k < n; k++ {
+		e := out[g.r.Intn(len(out))]
+		at := g.r.Intn(len(out) + 1)
+		out = append(out[:at], append([]uint64{e}, out[at:]...)...)
+	}
+	return out
+}
+
+func jHasDup(topics []uint64) bool {
+	for i := range topics {
+		for j := i + 1; j < len(topics); j++ {
+			if topics[i] == topics[j] {
+				return true
+			}
+		}
+	}
+	return false
+}
+
+// sprinkleDupTopics: in one scenario of four of every class of both families some publications name a topic more
+// than once in their list (a list concatenated from several sources: ["a","a"], ["b","a","b"]).  A publication is for
+// the subscribers whose topics intersect the SET of its topics, whatever the list looks like and whoever stores it.
+func (g *jgen) sprinkleDupTopics(s *jScenario) {
+	if !g.r.Chance(1, 4) {
+		return
+	}
+	for t := range s.pubs {
+		for k := range s.pubs[t].msgs {
+			if m := &s.pubs[t].msgs[k]; len(m.topics) > 0 && g.r.Chance(1, 2) {
+				m.topics = g.dupTopics(m.topics)
+			}
+		}
+	}
+}
+
+// jMayShare: the direct subscribers i and j can be given ONE writer object - no publication of the scenario is for
+// both (the shared writer attributes a fan-out call by the message's topics), and neither comes in through the Server.
+func jMayShare(s *jScenario, i, j int) bool {
+	a, b := &s.subs[i], &s.subs[j]
+	if a.via&jViaServer != 0 || b.via&jViaServer != 0 || jIntersects(a.topics, b.topics) {
+		return false
+	}
+	for _, t := range s.pubs {
+		for k := range t.msgs {
+			if mt := t.msgs[k].effTopics(); jIntersects(a.topics, mt) && jIntersects(b.topics, mt) {
+				return false
+			}
+		}
+	}
+	return true
+}
+
+// sprinkleClients: what the Subscription's Client field holds.  In one scenario of five of every class of both
+// families some direct subscribers hand Joe a value of an UNCOMPARABLE dynamic type (a func type with methods, a
+// struct with a slice / map field passed by value); in one of five, subscribers that no publication addresses
+// together share ONE writer object (a connection subscribed several times: the same pointer, or equal struct values).
+// What Joe owes a subscription does not depend on what its Client value is, equals, or can be compared with.
+func (g *jgen) sprinkleClients(s *jScenario) {
+	switch g.r.Intn(5) {
+	case 0:
+		all := g.r.Bool()
+		kind := uint64(1 + g.r.Intn(3))
+		for i := range s.subs {
+			if x := &s.subs[i]; x.client == 0 && x.via&jViaServer == 0 && (all || g.r.Bool()) {
+				x.client = kind
+				if g.r.Chance(1, 4) {
+					x.client = uint64(1 + g.r.Intn(3))
+				}
+			}
+		}
+	case 1:
+		ngroups := uint64(0)
+		for i := range s.subs {
+			if c := s.subs[i].client; c >= jClientShare {
+				ngroups = max(ngroups, c%10+1) // the groups the class made itself keep their numbers
+			}
+		}
+		for i := range s.subs {
+			if s.subs[i].client != 0 || s.subs[i].via&jViaServer != 0 {
+				continue
+			}
+			members := []int{i}
+			for j := i + 1; j < len(s.subs) && len(members) < 3; j++ {
+				ok := s.subs[j].client == 0
+				for _, m := range members {
+					ok = ok && jMayShare(s, m, j)
+				}
+				if ok {
+					members = append(members, j)
+				}
+			}
+			if len(members) < 2 || ngroups >= 9 {
+				continue
+			}
+			c := jClientShare + ngroups
+			if g.r.Bool() {
+				c = jClientShareV + ngroups
+			}
+			for _, m := range members {
+				s.subs[m].client = c
+			}
+			ngroups++
+		}
+	}
+}
+
 func (g *jgen) emit(fam, class string, s *jScenario) {
+	if joeParent.stuck >= jStuckMax {
+		// this run has stranded calls in jStuckMax scenarios already (each costs the 10 s deadline): what it has
+		// shown is kept rather than lost to the family's time limit.  Never reached on the unchanged code.
+		g.c.Count(fam + ":not-run-after-" + strconv.Itoa(jStuckMax) + "-stuck-scenarios")
+		return
+	}
 	g.sprinkleSpelling(s)
 	g.sprinkleBlank(s)
 	g.sprinkleSame(s)
@@ -524,6 +674,8 @@ func (g *jgen) emit(fam, class string, s *jScenario) {
 	g.sprinkleSession(fam, s)
 	g.noReplayer(fam, s)
 	g.sprinkleReuse(fam, s)
+	g.sprinkleDupTopics(s)
+	g.sprinkleClients(s)
 	g.countScenario(fam, class, s)
 	g.c.Emit(val.L(s.enc()))
 }
@@ -770,9 +922,54 @@ func (g *jgen) plainPubs(s *jScenario, threads, lo, hi int, topic uint64, start 
 func (g *jgen) tplShutdown(maxSubs int) (*jScenario, string) {
 	s := g.base()
 	topic := uint64(g.r.Intn(3))
-	variant := g.r.Intn(10)
+	variant := g.r.Intn(12)
 	name := ""
 	switch variant {
+	case 10, 11:
+		// "Shutdown returns its context's error if that ends first": the loop is inside a subscriber's Send (or
+		// Flush) and STAYS there until that Shutdown call has returned - a writer that only comes back once the
+		// caller of Shutdown has given up and torn the connection down - while other Subscribe and Publish calls are
+		// already waiting to be taken by the loop; the context of the Shutdown call has ended before the call, or ends
+		// right after it entered / right before it closes j.done.  Shutdown must return that context's error without
+		// the loop's help; then the writer returns and everything else ends as usual.  (The park's own time-out lies
+		// beyond the scenario deadline: a Shutdown that waits for the loop is a stuck scenario, not a slow one.)
+		name = "ctx-ends-first/loop-inside-a-writer-call+calls-waiting"
+		g.plainSubs(s, 1+g.r.Intn(2), topic)
+		early := len(s.subs)
+		g.plainPubs(s, 1, 1, 1, topic, jEvN(34, jAny, uint64(early)))
+		pointc := rng.Pick(g.r, []uint64{38, 38, 39})
+		s.parks = append(s.parks, jPark(pointc, jAny, 1, 15000000, jAbs(22, 0, 1)))
+		inside := jEvN(pointc, jAny, 1)
+		nws, nwp := g.r.Intn(3), g.r.Intn(3)
+		if nws+nwp == 0 {
+			if g.r.Bool() {
+				nws = 1
+			} else {
+				nwp = 1
+			}
+		}
+		for i := 0; i < nws; i++ {
+			x := jSubSpec{topics: []uint64{topic}, start: inside}
+			if g.r.Chance(1, 5) {
+				x.hasCancel, x.cancel = true, jEv(22, 0) // its own context ends once that Shutdown call is over
+			}
+			s.subs = append(s.subs, x)
+		}
+		for t := 0; t < nwp; t++ {
+			g.plainPubs(s, 1, 1, 1, topic, inside)
+		}
+		hs := jShutSpec{hasCancel: true, start: jCond{jAbs(pointc, jAny, 1), jAbs(1, jAny, uint64(early+nws)), jAbs(11, jAny, uint64(1+nwp))}}
+		switch g.r.Intn(3) {
+		case 0: // ended before the call
+		case 1:
+			hs.cancel = jEv(16, 0)
+		case 2:
+			hs.cancel = jEv(17, 0)
+		}
+		s.shuts = append(s.shuts, hs)
+		if g.r.Chance(1, 4) {
+			s.shuts = append(s.shuts, jShutSpec{start: jEv(22, 0)}) // a second caller, once the first one gave up
+		}
 	case 8, 9:
 		// Shutdown closes j.done while the loop is inside a call into the replayer - the Replay for a subscriber it
 		// has accepted and not yet registered, or the Put of a message it has taken - whatever that call then
@@ -1418,6 +1615,130 @@ func (g *jgen) tplReuse(maxSubs int) *jScenario {
 	return s
 }
 
+// ---- (j) publications whose topic list names a topic more than once ---------------------------------------
+//
+// Every kind of replayer (none, the scripted wrapper, FiniteReplayer, ValidReplayer; automatic and manual IDs); a
+// subscriber on the default topic, one on topic 1, one on topics 1 and 2, sometimes one on the default topic and 2;
+// publications ["a","a"], ["b","a","b"], ["a","a","a"], ["a","b","b"] ... to topics 1, 2 (and some to the default
+// topic); now and then somebody resumes afterwards and has the stored copies replayed.
+
+func (g *jgen) tplDupTopics(maxSubs int) (*jScenario, string) {
+	s := g.base()
+	rk := g.r.Intn(6)
+	name := []string{"no-replayer", "finite/auto", "valid/auto", "finite/manual", "valid/manual", "scripted-wrapper"}[rk]
+	auto := rk == 1 || rk == 2
+	switch rk {
+	case 0:
+		s.kind = 4
+	case 1, 3:
+		s.kind, s.cap = 1, uint64(2+g.r.Intn(4))
+	case 2, 4:
+		s.kind = 2
+	}
+	if auto {
+		s.auto = 1
+	}
+	pool := [][]uint64{{0}, {1}, {1, 2}, {0, 2}, {2}, {0}}
+	nsubs := 2 + g.r.Intn(maxSubs-1)
+	for i := 0; i < nsubs; i++ {
+		s.subs = append(s.subs, jSubSpec{topics: pool[i%len(pool)]})
+	}
+	lists := [][]uint64{{1}, {2}, {1, 2}, {2, 1}, {1}, {2}, {0}, {0, 1}, {3}}
+	for t, nt := 0, 1+g.r.Intn(2); t < nt; t++ {
+		pt := jPubSpec{start: jEvN(34, jAny, uint64(nsubs))}
+		first := jToks(s)
+		for k, m := 0, 2+g.r.Intn(3); k < m; k++ {
+			ms := jMsgSpec{topics: g.dupTopics(rng.Pick(g.r, lists))}
+			if (rk == 3 || rk == 4) != g.r.Chance(1, 10) {
+				ms.idopt = jID("m" + strconv.Itoa(first+k))
+			}
+			pt.msgs = append(pt.msgs, ms)
+		}
+		s.pubs = append(s.pubs, pt)
+	}
+	ntok := jToks(s)
+	if g.r.Chance(1, 3) {
+		x := jSubSpec{topics: rng.Pick(g.r, pool), start: jEv(15, uint64(g.r.Intn(ntok)))}
+		switch {
+		case rk == 0 || rk == 5 || g.r.Chance(1, 4):
+		case auto:
+			x.idopt = jID(strconv.Itoa(g.r.Intn(ntok)))
+		default:
+			x.idopt = jID("m" + strconv.Itoa(g.r.Intn(ntok)))
+		}
+		s.subs = append(s.subs, x)
+	}
+	s.shuts = []jShutSpec{jFinalShut()}
+	return s, name
+}
+
+// ---- (i) one writer object subscribed several times; writers of uncomparable type ------------------------
+//
+// 2-3 subscriptions on different topics share ONE writer object (the same pointer / equal struct values), 0-2 other
+// subscribers stand next to them (own writers - pointers or uncomparable values - on one of those topics).  A round
+// of publications reaches every subscription; the writer answers an error for ONE of them (the k-th call of that
+// subscription, or never); further rounds follow.  Every publication is for one member of the group at most.
+// uncomparable = true: nobody shares; every Client value is of an uncomparable dynamic type.
+
+func (g *jgen) tplClients(maxSubs int, uncomparable bool) (*jScenario, string) {
+	s := g.base()
+	n := 2 + g.r.Intn(2)
+	c := uint64(jClientShare)
+	name := "shared/the-same-pointer"
+	if g.r.Bool() {
+		c, name = jClientShareV, "shared/equal-struct-values"
+	}
+	if uncomparable {
+		c, name = uint64(1+g.r.Intn(3)), "uncomparable"
+	}
+	base := uint64(g.r.Intn(2)) // with 0 one member is on the default topic
+	for i := 0; i < n; i++ {
+		x := jSubSpec{topics: []uint64{base + uint64(i)}, client: c}
+		if g.r.Chance(1, 4) {
+			x.topics = append(x.topics, 7+uint64(i)) // a second topic nobody else has
+		}
+		if uncomparable && g.r.Chance(1, 3) {
+			x.topics = []uint64{base}
+		}
+		s.subs = append(s.subs, x)
+	}
+	for i, others := 0, g.r.Intn(3); i < others && len(s.subs) < maxSubs+1; i++ {
+		x := jSubSpec{topics: []uint64{base + uint64(g.r.Intn(n))}}
+		if uncomparable || g.r.Chance(1, 3) {
+			x.client = uint64(1 + g.r.Intn(3))
+		}
+		s.subs = append(s.subs, x)
+	}
+	if !g.r.Chance(1, 5) {
+		f := g.r.Intn(n)
+		s.subs[f].script = append(jZeros(g.r.Intn(4)), g.werr())
+		s.subs[f].selfCancel = g.r.Chance(1, 3)
+	}
+	nsubs := uint64(len(s.subs))
+	pt := jPubSpec{start: jEvN(34, jAny, nsubs)}
+	for round, rounds := 0, 2+g.r.Intn(2); round < rounds; round++ {
+		for i := 0; i < n; i++ {
+			m := jMsgSpec{topics: []uint64{base + uint64(i)}}
+			if g.r.Chance(1, 5) {
+				m.topics = []uint64{11, base + uint64(i)} // and a topic nobody follows
+			}
+			pt.msgs = append(pt.msgs, m)
+		}
+	}
+	s.pubs = append(s.pubs, pt)
+	if g.r.Chance(1, 4) {
+		// a member joins late (its Replay runs while the others are registered)
+		s.subs[n-1].start = jEv(15, uint64(g.r.Intn(n)))
+		s.pubs[0].start = jEvN(34, jAny, nsubs-1)
+	}
+	if g.r.Chance(1, 5) {
+		v := g.r.Intn(n)
+		s.subs[v].hasCancel, s.subs[v].cancel = true, jEvN(38, uint64(v), 1)
+	}
+	s.shuts = []jShutSpec{jFinalShut()}
+	return s, name
+}
+
 // ---- random mix -------------------------------------------------------------------------------------
 
 func (g *jgen) randCondSub(i uint64, ntok, nsubs int) jCond {
@@ -1614,6 +1935,14 @@ func genJoe(c *Ctx) {
 	}
 	for n := 0; n < 30*mult; n++ {
 		g.emit("joe", "publisher-keeps-one-topics-slice", g.tplReuse(maxSubs))
+	}
+	for n := 0; n < 30*mult; n++ {
+		s, name := g.tplDupTopics(maxSubs)
+		g.emit("joe", "topic-named-twice/"+name, s)
+	}
+	for n := 0; n < 30*mult; n++ {
+		s, name := g.tplClients(maxSubs, n%3 == 2)
+		g.emit("joe", "client-values/"+name, s)
 	}
 }
 
